@@ -130,6 +130,26 @@ def corpus(ctx):
     one_case(ctx, a, b, cfg, "corpus.gaps")
 
 
+def corpus2(ctx):
+    # one instance split between two instances of the other side, both beating a Dice threshold in (1/2, 2/3)
+    ref = np.zeros((1, 14), np.uint8)
+    pred = np.zeros((1, 14), np.uint8)
+    ref[0, 0:10] = 1
+    pred[0, 0:6] = 1
+    pred[0, 6:10] = 2
+    for thr in ((11, 20), (3, 5), (1, 2)):
+        cfg = E.mk_cfg("UNMATCHED", ["IOU", "DSC", "RVD"], matcher=E.naive("DSC", thr))
+        one_case(ctx, pred, ref, cfg, "corpus.dsc-split")
+    # many more components on one side than on the other (semantic input)
+    a = np.zeros((41, 41), np.uint8)
+    a[::2, ::2] = 1
+    b = np.zeros((41, 41), np.uint8)
+    b[4:9, 4:9] = 1
+    b[20, 20] = 1
+    b[30:33, 30:33] = 1
+    one_case(ctx, a, b, E.mk_cfg("SEMANTIC", ["IOU", "DSC"], matcher=E.naive("IOU", (1, 10)), backend="scipy"), "corpus.many-components")
+
+
 def run_cases(ctx, n, tag):
     rng = ctx.rng
     for i in range(n):
@@ -143,6 +163,7 @@ def run_cases(ctx, n, tag):
 
 def run(ctx):
     corpus(ctx)
+    corpus2(ctx)
     run_cases(ctx, ctx.scale(500, 5000), "rand")
 
 
